@@ -139,7 +139,25 @@ def _check_world(case, vs, ls):
     li = {id(l): i for i, l in enumerate(ls)}
     f = graphs.make_filter(case["f"])
     ff = graphs.real_filter2(f, vi, li, falsy=graphs.is_falsy(case["f"]))
+    reentrant = False
+    if ff is not None and not hasattr(ff, "fn") and case.get("order", 0) % 5 == 4:
+        # a RE-ENTRANT filter: deciding about a neighbour involves asking for that neighbour's own neighbours
+        # ("keep those that have ..."): the outer call must not be disturbed by the inner ones
+        pure_ff = ff
+        from edgegraph.traversal import helpers as _helpers
+
+        def ff(e, x, _pure=pure_ff):
+            if x is not None:
+                try:
+                    _helpers.neighbors(x, h.D(ANY), h.U(NEIGHBOR))
+                except NotImplementedError:
+                    pass
+            return _pure(e, x)
+
+        reentrant = True
     classes = {"caching-on" if case.get("cache") else "caching-off"}
+    if reentrant:
+        classes.add("re-entrant-filter")
     if graphs.is_falsy(case["f"]):
         classes.add("falsy-callable-filter")
     if case["g"].get("eq"):
